@@ -87,14 +87,23 @@ def _modfile(ctx):
     return mf
 
 
-def go_build(ctx, pkg="./cmd/zrdrive", name=None, tags="verif", overlay=None):
-    """Build one harness command against ctx.repo's working tree; returns the binary."""
+def go_build(ctx, pkg="./cmd/zrdrive", name=None, tags="verif", overlay=None, files=None):
+    """Build one harness command against ctx.repo's working tree; returns the binary.
+    files=["engsim.go", ...]: build only main.go plus these files of the package directory,
+    so that a check depends on its own driver files only (other drivers under construction
+    or needing other hooks cannot break it)."""
     name = name or os.path.basename(pkg)
     out = os.path.join(ctx.sub("bin"), name)
     cmd = ["go", "build", "-modfile=" + _modfile(ctx), "-tags", tags, "-o", out]
     if overlay:
         cmd += ["-overlay", overlay]
-    cmd.append(pkg)
+    if files:
+        fl = list(files)
+        if "main.go" not in fl:
+            fl.insert(0, "main.go")
+        cmd += [os.path.join(pkg, f) for f in fl]
+    else:
+        cmd.append(pkg)
     t = time.time()
     p = subprocess.run(cmd, cwd=os.path.join(VERIF, "harness"), env=go_env(),
                        stdout=subprocess.PIPE, stderr=subprocess.STDOUT, text=True)
